@@ -23,7 +23,7 @@ pub fn gen_case(seed: u64, focus: &str) -> Value {
     let opts = GenOpts {
         need_slots: focus == "C11" || focus == "C15" || g.chance(1, 2),
         no_type_coupling: false,
-        max_segments: if focus == "C11" { 8 } else { 10 },
+        max_segments: if focus == "C11" { 8 } else if focus == "C12x" { 5 } else { 10 },
         risky: false,
         id_prefix: String::new(),
         ties: g.chance(2, 3),
@@ -36,6 +36,7 @@ pub fn gen_case(seed: u64, focus: &str) -> Value {
     let mode = match focus {
         "C11" => "walk",
         "C15" => "trans",
+        "C12x" => "exhaust",
         _ => "ops",
     };
     let n_ops = match mode {
@@ -1254,6 +1255,12 @@ fn run_inner(case: &Value, inst: RefInstance, _want: &BTreeSet<String>) -> Value
         }
         "trans" => {
             nontrivial = crate::sim_b_trans::run_trans(&mut cx, &s, case);
+        }
+        "exhaust" => {
+            let n = crate::sim_b_tour::run_exhaust(&mut cx);
+            cx.steps += n;
+            cx.log.push_str(&format!("exhaust:{}", n));
+            nontrivial = n >= 50;
         }
         _ => {
             let given: Option<Vec<Value>> = case["ops"].as_array().cloned();
